@@ -63,7 +63,8 @@ inductive Kind | none | text | vesa
 structure St where
   stats : Stats := {}
   caseId : String := ""
-  fonts : Array VesaFb.Font := #[]
+  /-- fonts declared by `fontdef <id> …` lines, newest first -/
+  fonts : List (Nat × VesaFb.Font) := []
   kind : Kind := .none
   tc : VgaText.Cons := { width := 0, height := 0 }
   tfb : Array UInt16 := #[]
@@ -144,10 +145,11 @@ def parsePalette (hex : String) : Array (UInt8 × UInt8 × UInt8) :=
   (go (hexBytes hex)).toArray
 
 def processLine (st : St) (line : String) : IO St := do
+  if line.startsWith "#" then return st   -- comment (e.g. the boot command line of a HAL case)
   if line.startsWith "fontdef " then
     match toks line with
-    | [_, _, gw, gh, bpr, hex] =>
-      return { st with fonts := st.fonts.push { gw := nat! gw, gh := nat! gh, bpr := nat! bpr, data := (hexBytes hex).toArray } }
+    | [_, id, gw, gh, bpr, hex] =>
+      return { st with fonts := (nat! id, { gw := nat! gw, gh := nat! gh, bpr := nat! bpr, data := (hexBytes hex).toArray }) :: st.fonts }
     | _ => IO.println s!"MISMATCH case={st.caseId} unparsable fontdef"; return st
   match line.splitOn " |" with
   | [opS, obsS0] =>
@@ -206,13 +208,41 @@ def processLine (st : St) (line : String) : IO St := do
     | ["pal", hex] =>
       return { st with vc := { st.vc with palette := parsePalette hex } }
     | ["font", id] =>
-      match st.fonts[nat! id]? with
+      match (st.fonts.find? (·.1 = nat! id)).map (·.2) with
       | none => emit st [s!"MISMATCH case={st.caseId} op={opS} unknown font"]
       | some f =>
         let c := VesaFb.setFont st.vc f
         let m := s!"{c.cols} {c.rows}"
         let st := bump { st with vc := c } s!"font_{f.gw}x{f.gh}"
         if m ≠ obsS then emit st [s!"MISMATCH case={st.caseId} op={opS} model={m} impl={obsS}"] else return st
+    | ["hal", fid] =>
+      -- the console as `hal.onConsoleInit` configured it (logo, then font — in whatever order the
+      -- kernel really used): observation = offsetY, cols, rows, then the diff of the logo drawing
+      let c0 := st.vc
+      let cur := st.vfb
+      match (st.fonts.find? (·.1 = nat! fid)).map (·.2), obs with
+      | some f, offY :: cols :: rows :: diff =>
+        let (offY, cols, rows) := (u32 offY, u32 cols, u32 rows)
+        -- the model configures in the documented order: SetLogo before SetFont
+        let cm := VesaFb.setFont (VesaFb.setLogoHeight c0 offY) f
+        let o := applyDiff cur diff id
+        let mut ls : List String := []
+        if (cm.cols, cm.rows) ≠ (cols, rows) then
+          ls := ls ++ [s!"MISMATCH case={st.caseId} op={opS} model={cm.cols} {cm.rows} impl={cols} {rows}"]
+        if ¬ (rows * f.gh + offY ≤ c0.height ∧ cols * f.gw ≤ c0.width) then
+          ls := ls ++ [s!"PROPFAIL case={st.caseId} clause=grid-fits feature=hal-configured op={opS} impl={obsS.take 60}"]
+        if o.guardHit then ls := ls ++ [s!"PROPFAIL case={st.caseId} clause=no-oob feature=guard op={opS} impl={obsS.take 160}"]
+        let mut bad : Option Nat := none
+        for i in [0:o.fb.size] do
+          if o.fb[i]! ≠ cur[i]! ∧ bad.isNone ∧ ¬ (i / c0.pitch < offY ∧ i % c0.pitch < c0.width * c0.bytesPerPixel) then bad := some i
+        if let some i := bad then
+          ls := ls ++ [s!"PROPFAIL case={st.caseId} clause=logo-contained feature=hal-configured op={opS} impl=[{i}]={o.fb[i]!}"]
+        -- later operations are replayed on the geometry the implementation really has
+        let c := { cm with cols := cols, rows := rows }
+        let st := bump (bump st (if offY = 0 then "hal_nologo" else "hal_logo")) s!"font_{f.gw}x{f.gh}"
+        emit { st with vc := c, vfb := o.fb } ls
+      | _, ["panic"] => emit st [s!"PROPFAIL case={st.caseId} clause=no-oob feature=hal-configured op={opS} impl=panic"]
+      | _, _ => emit st [s!"MISMATCH case={st.caseId} op={opS} unknown font or bad observation"]
     | ["logo", _w, h, _align] =>
       let c0 := st.vc
       let cur := st.vfb
